@@ -268,6 +268,29 @@ def generate():
         raise Missing("proxy_agent/src/key_keeper.rs: write_all max file count %r is not a known constant" % mfc)
     I("rules_dump_max_files", int(mfc) if mfc.isdigit() else env[mfc], "proxy_agent/src/key_keeper.rs")
 
+    # ---- request handler: status of each early return, provision path (C01) ----
+    # TOLERANT on purpose: a check that is no longer found yields 0 ("absent") instead of a
+    # Missing error, so that removing a check breaks C01's status-table theorem (and is then
+    # found by C01's end-to-end run with a failing input) without failing every other property.
+    S("provision_url_path", rust_str("proxy_agent/src/provision.rs", "PROVISION_URL_PATH"), "proxy_agent/src/provision.rs")
+    f = "proxy_agent/src/proxy/proxy_server.rs"
+    hm = re.search(r"async fn handle_new_http_request\b(.*?)\n    async fn ", strip_comments(src(f)), flags=re.S)
+    hbody = hm.group(1) if hm else ""
+    codes = {"NOT_FOUND": 404, "MISDIRECTED_REQUEST": 421, "INTERNAL_SERVER_ERROR": 500, "FORBIDDEN": 403,
+             "BAD_REQUEST": 400, "UNAUTHORIZED": 401, "BAD_GATEWAY": 502, "SERVICE_UNAVAILABLE": 503, "OK": 200,
+             "NOT_ACCEPTABLE": 406, "CONFLICT": 409, "GONE": 410, "PAYLOAD_TOO_LARGE": 413, "TOO_MANY_REQUESTS": 429,
+             "NOT_IMPLEMENTED": 501, "GATEWAY_TIMEOUT": 504, "METHOD_NOT_ALLOWED": 405, "REQUEST_TIMEOUT": 408}
+    for coq, pat in (
+            ("handler_status_counter_failure", r"increase_connection_count\(\)(?:(?!contains_traversal_characters).)*?empty_response\(StatusCode::(\w+)\)"),
+            ("handler_status_traversal", r"if\s+http_connection_context\.contains_traversal_characters\(\)\s*\{(?:(?!\n        \}).)*?empty_response\(StatusCode::(\w+)\)"),
+            ("handler_status_no_destination", r"match\s+tcp_connection_context\.destination_ip\s*\{(?:(?!\n        \};).)*?None\s*=>(?:(?!\n        \};).)*?empty_response\(StatusCode::(\w+)\)"),
+            ("handler_status_no_claims", r"match\s+tcp_connection_context\.claims\s*\{(?:(?!\n        \};).)*?None\s*=>(?:(?!\n        \};).)*?empty_response\(StatusCode::(\w+)\)"),
+            ("handler_status_claims_json", r"match\s+serde_json::to_string\(&claims\)\s*\{(?:(?!\n        \};).)*?Err\(\w+\)\s*=>(?:(?!\n        \};).)*?empty_response\(StatusCode::(\w+)\)"),
+            ("handler_status_rules_error", r"proxy_authorizer::get_access_control_rules\((?:(?!\n        \};).)*?Err\(\w+\)\s*=>(?:(?!\n        \};).)*?empty_response\(StatusCode::(\w+)\)"),
+            ("handler_status_forbidden", r"if\s+result\s*==\s*AuthorizeResult::Forbidden\s*\{(?:(?!\n            \}).)*?empty_response\(StatusCode::(\w+)\)")):
+        mm = re.search(pat, hbody, flags=re.S)
+        I(coq, codes.get(mm.group(1), 0) if mm else 0, f)
+
     lines = []
     lines.append("(* GENERATED by tools/gen_consts.py from /repo's current sources -- do not edit. *)")
     lines.append("From Coq Require Import List NArith.")
